@@ -459,7 +459,129 @@ def r4_part_head(prog, res):
     res.floor("R4.part_attached_to_head", "emitted AppendMultInstance( new .. ) / base-initialiser templates", n_app, 3)
 
 
+def r5_referent_not_self(prog, res):
+    """In an emitted `X->ReferentType( Y )` the receiver X is the descriptor being built (`<prefix><count>`) and Y names the
+    descriptor of its element / referent type.  Y is printed from a char buffer.  If that buffer was last written with X's own name
+    (`sprintf( buf, "<prefix>%d", count )`) the descriptor refers to itself and the element type is lost.  Path-sensitive walk: at
+    every emission of ReferentType the buffer printed as Y has been overwritten since - by a formatting call, or by a helper that is
+    known to fill its buffer parameter exactly when it returns non-zero, on the edge where it did."""
+    import pathstate
+
+    def core(n):
+        n = strip(n)
+        while n is not None and n["k"] == "Cast" and n.get("ch"):
+            n = strip(n["ch"][0])
+        return n
+    # helpers that fill their char* parameter iff they return non-zero
+    fills = {}
+    for g in prog.all_functions():
+        if g.component != "exp2cxx" or g.cfg is None:
+            continue
+        rt = g.tyname(g.raw.get("ret")) if isinstance(g.raw.get("ret"), int) else ""
+        if rt not in ("int", "bool", "_Bool"):
+            continue
+        for pi, p_ in enumerate(g.params):
+            if (g.tyname(p_["t"]) if isinstance(p_.get("t"), int) else "") != "char *":
+                continue
+            writes = [c for c in g.calls() if (c.get("fn") or "") in ("sprintf", "strcpy", "snprintf", "strncpy", "__builtin___sprintf_chk") and call_args(c) and
+                      core(call_args(c)[0]) is not None and core(call_args(c)[0]).get("d") == p_["d"]]
+            rets = [x for x in g.walk() if x["k"] == "Return" and x.get("ch") and x["ch"][0] is not None]
+            if not writes or not rets:
+                continue
+            ok = True
+            for r in rets:
+                v = core(r["ch"][0])
+                if v is not None and v["k"] == "Call" and v.get("fk") == g.key:
+                    continue                       # tail recursion: same contract
+                val = v.get("val") if v is not None else None
+                if val is None:
+                    ok = False
+                    break
+                wrote = any(g.cfg.dominates(g.cfg.locate(w), g.cfg.locate(r)) for w in writes)
+                reach = any(g.cfg.reaches(g.cfg.locate(w), g.cfg.locate(r)) for w in writes)
+                if (val != 0 and not wrote) or (val == 0 and reach):
+                    ok = False
+                    break
+            if ok:
+                fills[(g.key, pi)] = g.name
+    res.info["r5_fill_iff_nonzero_helpers"] = sorted(set(fills.values()))
+    n = 0
+    for f in prog.all_functions():
+        if f.component != "exp2cxx" or f.cfg is None:
+            continue
+        emits = []
+        for c in f.calls():
+            if (c.get("fn") or "") != "fprintf":
+                continue
+            a = call_args(c)
+            if len(a) >= 2 and core(a[1]) is not None and core(a[1])["k"] == "Str":
+                m = re.search(r"(%s%d)->ReferentType\(\s*%s\s*\)", core(a[1])["s"])
+                if m and len(a) >= 5:
+                    emits.append((c, [expr_str(core(a[2])), expr_str(core(a[3]))], core(a[4])))
+        if not emits:
+            continue
+        for c, own, ybuf in emits:
+            if ybuf is None or ybuf["k"] != "Ref":
+                continue
+            n += 1
+            d = ybuf["d"]
+            hits = {}
+
+            def on_node(nd, ts, env, d=d, own=own, c=c, hits=hits):
+                if nd["k"] == "Call":
+                    a = call_args(nd)
+                    fn_ = nd.get("fn") or ""
+                    if fn_ in ("sprintf", "snprintf", "strcpy", "strncpy") and a and core(a[0]) is not None and core(a[0]).get("d") == d:
+                        k = 1 if fn_ == "sprintf" else (2 if fn_ == "snprintf" else None)
+                        if k and len(a) > k and core(a[k]) is not None and core(a[k])["k"] == "Str" and core(a[k])["s"] == "%s%d" and \
+                                [expr_str(core(x)) for x in a[k + 1:k + 3]] == own:
+                            return "self"
+                        return "other"
+                    if nd is c and ts == "self":
+                        hits[nd["i"]] = nd
+                    # any other callee that receives the buffer (not one of the iff-helpers, which are handled on the edge)
+                    if nd is not c and fn_ != "fprintf":
+                        for i, x in enumerate(a):
+                            if core(x) is None or core(x).get("d") != d or (nd.get("fk"), i) in fills:
+                                continue
+                            # a callee that takes the buffer as `const char *` only reads it
+                            callee = [g for g in prog.all_functions() if g.key == nd.get("fk")]
+                            pty = (callee[0].tyname(callee[0].params[i]["t"]) if callee and i < len(callee[0].params) and
+                                   isinstance(callee[0].params[i].get("t"), int) else "")
+                            if "const" in pty:
+                                continue
+                            return "other"
+                return ts
+
+            def on_edge(cn, br, ts, env, d=d):
+                c0 = core(cn)
+                neg = False
+                while c0 is not None and c0["k"] == "Unary" and c0.get("op") == "!":
+                    neg = not neg
+                    c0 = core(c0["ch"][0])
+                if c0 is not None and c0["k"] == "Call":
+                    a = call_args(c0)
+                    for i, x in enumerate(a):
+                        if core(x) is not None and core(x).get("d") == d and (c0.get("fk"), i) in fills:
+                            if br != neg:          # the helper returned non-zero on this edge: it has filled the buffer
+                                return "other"
+                return ts
+            try:
+                pathstate.walk(f, "unset", on_node, on_edge=on_edge)
+            except pathstate.Budget as e:
+                res.broke("R5: %s" % e)
+                continue
+            bad = bool(hits)
+            res.add("R5.referent_is_not_the_descriptor_itself", "R5|%s|%s|ReferentType@%d" % (f.relfile(), f.name, n), f.where(c), not bad,
+                    "the buffer `%s` printed as the referent has been overwritten since it held the descriptor's own name" % ybuf["n"] if not bad else
+                    "on a path to this emission `%s` still holds `%s%%d` of the descriptor being built (the helper that should name the element type "
+                    "returned 0 and left it alone): the emitted code reads t_N->ReferentType(t_N), the descriptor of an aggregate of aggregates names "
+                    "itself as its element type" % (ybuf["n"], own[0]))
+    res.floor("R5.referent_is_not_the_descriptor_itself", "emitted ReferentType( <buffer> ) templates", n, 1)
+
+
 def run(prog, res, tier):
+    r5_referent_not_self(prog, res)
     r4_part_head(prog, res)
     r1_slots(prog, res)
     r2_every_attribute(prog, res)
